@@ -8,8 +8,19 @@ _ADDR = re.compile(r'0x[0-9a-fA-F]{6,}')
 _ADDR_CUT = re.compile(r' at 0(x[0-9a-fA-F]*)?(?=\.\.\.)')
 
 
+# glom builds this message by iterating a set of keys (hash order): sort the listed keys
+_MISSING_KEYS = re.compile(r"(target missing expected keys: )([^\n]*)")
+
+
+def _sort_keys(m):
+    return m.group(1) + ', '.join(sorted(m.group(2).split(', ')))
+
+
 def norm_text(s):
-    return _ADDR.sub('0x?', _ADDR_CUT.sub(' at 0x?', s))
+    s = _ADDR.sub('0x?', _ADDR_CUT.sub(' at 0x?', s))
+    if 'target missing expected keys' in s:
+        s = _MISSING_KEYS.sub(_sort_keys, s)
+    return s
 
 
 def short(x, n=160):
@@ -44,7 +55,12 @@ def canon(v, idmap=None, depth=0, seen=None):
     if seen is None:
         seen = {}
     t = type(v)
-    if t in (int, str, bool, type(None)):
+    if t is str:
+        if depth and "', '" in v and v.startswith("'"):
+            # MatchError args carry the hash-ordered key list as one string
+            return ', '.join(sorted(v.split(', ')))
+        return v
+    if t in (int, bool, type(None)):
         return v
     if t is float:
         return ['float', repr(v)]
